@@ -762,6 +762,8 @@ func (e *Env) quant(kind string, n *ast.CallExpr) Val {
 	}
 	if kind == "forall" {
 		vc.quants = append(vc.quants, &quantRec{BV: bv, Text: full, Inner: f})
+	} else {
+		vc.exQuants = append(vc.exQuants, &quantRec{BV: bv, Text: full, Inner: f})
 	}
 	return BoolV(full)
 }
@@ -934,6 +936,10 @@ func (e *Env) callExpr(n *ast.CallExpr) Val {
 		cur := Sel(vc.heapGet(e.st, "G_pos", "(Array Int Int)"), r.S)
 		old := Sel(vc.heapGet(e.oldOr(), "G_pos", "(Array Int Int)"), r.S)
 		return IntV(Sub(cur, old), nil)
+	case "wlen":
+		return IntV(Sel(vc.heapGet(e.st, "G_wlen", "(Array Int Int)"), arg(0).S), nil)
+	case "wbyte":
+		return IntV(Sel(Sel(vc.heapGet(e.st, "G_wdata", "(Array Int (Array Int Int))"), arg(0).S), arg(1).S), nil)
 	case "streamClean":
 		vc.streamDecls()
 		return BoolV(app("streamClean", arg(0).S))
@@ -1018,6 +1024,11 @@ func (vc *VC) errIs(e, target string) string {
 	vc.declareFun("errIs", []string{"Int", "Int"}, "Bool")
 	vc.axiom("errIs_refl", "(forall ((e Int)) (! (=> (not (= e 0)) (errIs e e)) :pattern ((errIs e e))))")
 	vc.axiom("errIs_nil", "(forall ((t Int)) (! (=> (not (= t 0)) (not (errIs 0 t))) :pattern ((errIs 0 t))))")
+	if !vc.axiomSet["errIs_sentinels"] {
+		vc.axiomSet["errIs_sentinels"] = true
+		a, b := vc.errConst("io.EOF"), vc.errConst("io.ErrUnexpectedEOF")
+		vc.asserts = append(vc.asserts, And(Not(app("errIs", a, b)), Not(app("errIs", b, a))))
+	}
 	return app("errIs", e, target)
 }
 
